@@ -280,12 +280,39 @@ func c20sRun(op OpCode, depth int, readOnly bool) {
 	}
 }
 
-// every opcode byte, every stack depth the pushes can build (0..7): the table's stack validation
-// admits the instruction only with the operands its execute body pops
-//verif:opt unwind=300 budget_s=1500 split=64 big_bv=1 name_terms=6 max_split=300
+// the fewest operands the table's stack validation admits the instruction with (0 for undefined ones)
+func c20sNeed(op OpCode) int {
+	table := newConstantinopleInstructionSet()
+	if !table[op].valid {
+		return 0
+	}
+	for d := 0; d <= 7; d++ {
+		st := newstack()
+		for i := 0; i < d; i++ {
+			st.push(new(big.Int))
+		}
+		if table[op].validateStack(st) == nil {
+			return d
+		}
+	}
+	return 7
+}
+
+// every opcode byte; stack depth: exactly what the table's stack validation asks for and one less
+// (thorough: every depth 0..7 the pushes can build) - the validation admits the instruction only with
+// the operands its execute body pops
+//verif:opt unwind=300 budget_s=1500 thorough.budget_s=6000 split=64 thorough.split=128 big_bv=1 name_terms=6 max_split=300
 func H_C20_every_instruction_is_metered_and_total() {
 	op := OpCode(verifCase(256))
-	depth := verifCase(8)
+	var depth int
+	if verifThorough() {
+		depth = verifCase(8)
+	} else {
+		depth = c20sNeed(op) - verifCase(2)
+		if depth < 0 {
+			return
+		}
+	}
 	c20sRun(op, depth, false)
 }
 
@@ -306,3 +333,4 @@ func c20sIndex(ops []OpCode, op OpCode) int {
 	}
 	return 0
 }
+
